@@ -144,6 +144,25 @@ theorem never_unowned (v : View) (hv : WFView v) (hlive : ∃ n ∈ v, n.valid =
   have : n ∈ v ∧ n.valid = true := by unfold validNodes at hnV; simpa using hnV
   exact ⟨n, this.1, this.2, ho⟩
 
+/-! ## the cached range follows the view at every status tick -/
+
+/-- after every `check_node_status` tick the cached owner range is the range of the *current* view –
+whatever happened before (nodes timing out, nodes reporting in again) -/
+theorem range_fresh_after_tick (m : NM) (timedOut : Nat → Bool) :
+    (m.tick timedOut).range = ownerRange (m.tick timedOut).view m.loc := rfl
+
+/-- hence, once the tick has run, a live local node owns exactly the keys routed to it -/
+theorem owner_exact_after_tick (m : NM) (timedOut : Nat → Bool) (n : Node)
+    (hv : WFView (m.tick timedOut).view) (hn : n ∈ (m.tick timedOut).view) (hval : n.valid = true)
+    (hloc : n.id = m.loc) (h : Nat) :
+    isRange (m.tick timedOut).range h = true ↔ route (m.tick timedOut).view h = some n.id := by
+  rw [range_fresh_after_tick, ← hloc]
+  exact owner_iff_route _ hv n hn hval h
+
+/-- a node that reports in again does not change the cached range by itself (the window until the next
+tick is at most the 3 s period – runtime, not modelled further) -/
+theorem active_keeps_range (m : NM) (id : Nat) : (m.active id).range = m.range := rfl
+
 /-! ## the rule the code used before the `fix:` commit (index among **all** nodes) is wrong -/
 
 /-- pre-fix `get_current_process_range` -/
